@@ -18,6 +18,7 @@ Script
 
 import contextlib
 import gc
+import hashlib
 import json
 import threading
 import time
@@ -45,20 +46,23 @@ IN_SCHEMAS = {"int": pa.schema([("v", pa.int64())]), "dict": pa.schema([("v", DI
 
 
 def _dict_arr(ident: int, rows: int) -> pa.Array:
-    return pa.array([f"v{ident}-{i % 3}" for i in range(rows)], type=pa.utf8()).dictionary_encode().cast(DICT_T)
+    """`rows` values cycling over (at most) three dictionary entries `v<id>-0..2`."""
+    k = min(3, rows)
+    idx = pa.array(([0, 1, 2] * (rows // 3 + 1))[:rows], type=pa.int32())
+    return pa.DictionaryArray.from_arrays(idx, pa.array([f"v{ident}-{i}" for i in range(k)], type=pa.utf8()))
 
 
 def mk_out(kind: str, ident: int, rows: int) -> pa.RecordBatch:
     """The data batch a step emits: content is a function of (kind, id, rows) only."""
     if kind == "int":
-        return pa.RecordBatch.from_pydict({"x": [ident] * rows}, schema=OUT_SCHEMAS["int"])
+        return pa.RecordBatch.from_arrays([pa.repeat(pa.scalar(ident, pa.int64()), rows)], schema=OUT_SCHEMAS["int"])
     if kind == "dict":
         return pa.RecordBatch.from_arrays([_dict_arr(ident, rows)], schema=OUT_SCHEMAS["dict"])
     if kind == "zero":
         return pa.RecordBatch.from_struct_array(pa.array([{}] * rows, type=pa.struct([])))
     if kind == "mix":
         return pa.RecordBatch.from_arrays(
-            [pa.array([ident] * rows, type=pa.int64()), _dict_arr(ident, rows), pa.array([f"s{ident}" * 2] * rows, type=pa.utf8())],
+            [pa.repeat(pa.scalar(ident, pa.int64()), rows), _dict_arr(ident, rows), pa.array([f"s{ident}" * 2] * rows, type=pa.utf8())],
             schema=OUT_SCHEMAS["mix"])
     raise ValueError(kind)
 
@@ -74,7 +78,7 @@ def out_meta(kind: str, b: dict[str, Any]) -> dict[str, str] | None:
 def mk_in(variant: str, ident: int, rows: int) -> pa.RecordBatch:
     """Exchange inputs: conforming ("int"/"dict"), castable ("int32"), or a field set the server refuses ("renamed"/"extra")."""
     if variant == "int":
-        return pa.RecordBatch.from_pydict({"v": [ident] * rows}, schema=IN_SCHEMAS["int"])
+        return pa.RecordBatch.from_arrays([pa.repeat(pa.scalar(ident, pa.int64()), rows)], schema=IN_SCHEMAS["int"])
     if variant == "dict":
         return pa.RecordBatch.from_arrays([_dict_arr(ident, rows)], schema=IN_SCHEMAS["dict"])
     if variant == "int32":
@@ -119,7 +123,17 @@ def app_md(cm: Any) -> dict[str, str]:
 
 
 def content(batch: pa.RecordBatch) -> str:
-    return json.dumps([str(batch.schema), batch.num_rows, batch.to_pydict()], sort_keys=True, default=str)
+    """Logical content (independent of physical layout): compared between shm and inline delivery."""
+    d = json.dumps([str(batch.schema), batch.num_rows, batch.to_pydict()], sort_keys=True, default=str)
+    return d if len(d) < 2000 else hashlib.blake2b(d.encode(), digest_size=16).hexdigest()
+
+
+def digest(batch: pa.RecordBatch) -> str:
+    """Cheap fingerprint of what a (possibly zero-copy) batch reads as *now*: canary for overwritten regions."""
+    sink = pa.BufferOutputStream()
+    with ipc.new_stream(sink, batch.schema) as w:
+        w.write_batch(batch)
+    return hashlib.blake2b(sink.getvalue(), digest_size=16).hexdigest()
 
 
 # ----------------------------------------------------------------------------------------- sizes (what the code computes)
@@ -375,8 +389,8 @@ def run_script(desc: dict[str, Any], script: list[list[Any]], cfg: RunCfg, *, ex
                             else:
                                 ab = sess.exchange(AnnotatedBatch(batch=mk_in(op[3], op[1], op[2])))
                             cur.append(_ev_data(ab))
-                            held.append({"ab": ab, "released": False, "content": content(ab.batch), "id": cur[-1][1]})
-                            out["contents"].append(held[-1]["content"])
+                            held.append({"ab": ab, "released": False, "digest": digest(ab.batch), "id": cur[-1][1]})
+                            out["contents"].append(content(ab.batch))
                         except StopIteration:
                             cur.append(["end"])
                     elif kind == "close":
@@ -394,7 +408,7 @@ def run_script(desc: dict[str, Any], script: list[list[Any]], cfg: RunCfg, *, ex
                 out["trace"].append([list(x) for x in cur])
                 out["tables"].append(sample(conn, expect_tables[idx] if expect_tables is not None and idx < len(expect_tables) else None))
                 out["held"].append([[h["id"], release_offset(h["ab"]), h["released"]] for h in held])
-                out["canary"].append([content(h["ab"].batch) == h["content"] for h in held if not h["released"]])
+                out["canary"].append([digest(h["ab"].batch) == h["digest"] for h in held if not h["released"]])
             # end of session: close any open stream, then the caller releases everything it still holds
             if sess is not None:
                 with contextlib.suppress(Exception):
